@@ -1397,7 +1397,7 @@ class DateTime(datetime.datetime, Date):
             self.minute,
             self.second,
             self.microsecond,
-            tzinfo=self.tz,
+            tzinfo=self.tzinfo,
             fold=self.fold,
         )
 
